@@ -10,7 +10,7 @@ export RUSTFLAGS="--cfg libp2p_verif"
 mkdir -p "$CARGO_TARGET_DIR" "$ROOT/evidence" "$ROOT/runs"
 cd "$ROOT/harness" || exit 1
 fail=0
-for g in vmon vnet vc-swarm vc-wire vc-sec vc-gossipsub vc-gsnet vc-kad vc-kadnet vc-proto vc-protonet vc-misc; do
+for g in vmon vnet vc-swarm vc-wire vc-sec vc-gossipsub vc-gsnet vc-kad vc-proto vc-protonet vc-misc; do
   if cargo build --offline --profile vrel -p "$g" >"$CARGO_TARGET_DIR/setup-$g.log" 2>&1; then echo "built $g"; else echo "WARN: $g failed to build (see $CARGO_TARGET_DIR/setup-$g.log)"; tail -5 "$CARGO_TARGET_DIR/setup-$g.log"; fail=1; fi
 done
 # vmon/vnet are required; group failures are reported but do not fail setup (their checks would report BUILD-FAILED)
